@@ -5,10 +5,13 @@ go 1.22.0
 toolchain go1.23.5
 
 require (
+	github.com/cenkalti/backoff v2.2.1+incompatible
 	github.com/go-asn1-ber/asn1-ber v1.5.5
 	github.com/go-ldap/ldap/v3 v3.4.6
 	github.com/hashicorp/go-hclog v1.6.2
 	github.com/jimlambrt/gldap v0.0.0-00010101000000-000000000000
+	github.com/stretchr/testify v1.9.0
+	golang.org/x/exp v0.0.0-20240222234643-814bf88cf225
 	golang.org/x/tools v0.29.0
 )
 
@@ -20,7 +23,6 @@ require (
 	github.com/mattn/go-colorable v0.1.13 // indirect
 	github.com/mattn/go-isatty v0.0.20 // indirect
 	github.com/pmezard/go-difflib v1.0.0 // indirect
-	github.com/stretchr/testify v1.9.0 // indirect
 	golang.org/x/crypto v0.21.0 // indirect
 	golang.org/x/mod v0.22.0 // indirect
 	golang.org/x/sync v0.10.0 // indirect
